@@ -1,9 +1,10 @@
+#![feature(allocator_api)]
 #![allow(dead_code)]
 use taskchampion_sync_server_core::*;
 use uuid::Uuid;
 use std::cell::UnsafeCell;
 
-pub const N: usize = 7;
+pub const N: usize = 6;
 
 #[derive(Clone, Copy)]
 pub struct VRec { pub vid: u128, pub parent: u128, pub data: u8 }
@@ -204,7 +205,7 @@ mod proofs {
         if accept { assert!(got == Some((v, vec![9]))); }
         else if has { assert!(got == Some((Uuid::from_u128(ids[sp].vid), vec![7]))); }
         else { assert!(got.is_none()); }
-        kani::cover!(accept && n == 7);
+        kani::cover!(accept && n == 6);
         kani::cover!(!accept && pos.is_some());
         std::mem::forget(got);
         std::mem::forget(server);
@@ -414,4 +415,203 @@ mod proofs {
         assert!(back.unwrap().as_u128() == u.as_u128());
         std::mem::forget(s);
     }
+
+    fn empty_state() -> St {
+        St { exists: false, latest: 0, snap: None, snap_data: 0, versions: [VRec{vid:0,parent:0,data:0}; N + 1], n: 0, commits: 0, calls: 0, fail_at: 255 }
+    }
+    #[derive(Clone, Copy, PartialEq)]
+    enum Resp { Pending, Ok200(u128), Conflict409(u128), Ise500 }
+
+    fn race(fixed: bool) {
+        let storage = SymStorage(UnsafeCell::new(empty_state()));
+        let server = Server::new(ServerConfig::default(), storage);
+        let c = any_uuid();
+        let parents: [u128; 2] = kani::any();
+        let mut pc = [0u8; 2];
+        let mut resp = [Resp::Pending; 2];
+        let mut step = 0;
+        while step < 6 {
+            let r: usize = if kani::any() { 0 } else { 1 };
+            if pc[r] < 3 {
+                if pc[r] == 0 || pc[r] == 2 {
+                    match server.add_version(c, Uuid::from_u128(parents[r]), vec![r as u8]) {
+                        Ok((AddVersionResult::Ok(v), _)) => { resp[r] = Resp::Ok200(v.as_u128()); pc[r] = 3; }
+                        Ok((AddVersionResult::ExpectedParentVersion(e), _)) => { resp[r] = Resp::Conflict409(e.as_u128()); pc[r] = 3; }
+                        Err(ServerError::NoSuchClient) => { pc[r] = 1; }
+                        Err(_) => { resp[r] = Resp::Ise500; pc[r] = 3; }
+                    }
+                } else {
+                    let mut t = server.txn(c).unwrap();
+                    let need = if fixed { t.get_client().unwrap().is_none() } else { true };
+                    if need { t.new_client(Uuid::nil()).unwrap(); t.commit().unwrap(); }
+                    std::mem::forget(t);
+                    pc[r] = 2;
+                }
+            }
+            step += 1;
+        }
+        kani::assume(pc[0] == 3 && pc[1] == 3);
+        let ok = match (resp[0], resp[1]) {
+            (Resp::Ok200(a), Resp::Conflict409(b)) => a == b,
+            (Resp::Conflict409(b), Resp::Ok200(a)) => a == b,
+            (Resp::Ok200(a), Resp::Ok200(_b)) => parents[1] == a || parents[0] == _b,
+            _ => false,
+        };
+        assert!(ok);
+        kani::cover!(matches!(resp[0], Resp::Ok200(_)) && matches!(resp[1], Resp::Conflict409(_)));
+        std::mem::forget(server);
+    }
+
+    #[kani::proof]
+    #[kani::unwind(18)]
+    #[kani::stub(uuid::Uuid::new_v4, stub_new_v4)]
+    #[kani::stub(alloc::fmt::format, stub_format)]
+    #[kani::stub(<anyhow::Error as core::ops::Drop>::drop, stub_anyhow_drop)]
+    #[kani::stub(std::backtrace::Backtrace::capture, stub_bt)]
+    fn race_current() { race(false); }
+
+    #[kani::proof]
+    #[kani::unwind(18)]
+    #[kani::stub(uuid::Uuid::new_v4, stub_new_v4)]
+    #[kani::stub(alloc::fmt::format, stub_format)]
+    #[kani::stub(<anyhow::Error as core::ops::Drop>::drop, stub_anyhow_drop)]
+    #[kani::stub(std::backtrace::Backtrace::capture, stub_bt)]
+    fn race_fixed() { race(true); }
+
+    #[kani::proof]
+    #[kani::unwind(18)]
+    #[kani::stub(uuid::Uuid::new_v4, stub_new_v4)]
+    #[kani::stub(alloc::fmt::format, stub_format)]
+    #[kani::stub(<anyhow::Error as core::ops::Drop>::drop, stub_anyhow_drop)]
+    #[kani::stub(std::backtrace::Backtrace::capture, stub_bt)]
+    #[kani::stub(chrono::Utc::now, stub_now)]
+    fn hist3() {
+        let mut st = empty_state(); st.exists = true;
+        let storage = SymStorage(UnsafeCell::new(st));
+        let server = Server::new(ServerConfig::default(), storage);
+        let c = any_uuid();
+        let mut accepted: [u128; 3] = [0; 3]; let mut na = 0usize; let mut base = 0u128;
+        let mut k = 0;
+        while k < 3 {
+            let op: u8 = kani::any();
+            let arg = any_uuid();
+            if op == 0 {
+                if let Ok((AddVersionResult::Ok(v), _)) = server.add_version(c, arg, vec![k as u8]) { if na == 0 { base = arg.as_u128(); } accepted[na] = v.as_u128(); na += 1; }
+            } else if op == 1 {
+                let r = server.get_child_version(c, arg); std::mem::forget(r);
+            } else if op == 2 {
+                let r = server.add_snapshot(c, arg, vec![7]); assert!(r.is_ok());
+            } else {
+                let r = server.get_snapshot(c); std::mem::forget(r);
+            }
+            k += 1;
+        }
+        // walk
+        let mut cur = base; let mut i = 0;
+        while i < 4 {
+            match server.get_child_version(c, Uuid::from_u128(cur)) {
+                Ok(GetVersionResult::Success{version_id, ..}) => { assert!(i < na && version_id.as_u128() == accepted[i]); cur = version_id.as_u128(); }
+                Ok(GetVersionResult::NotFound) => { assert!(i == na); break; }
+                _ => { assert!(false); }
+            }
+            i += 1;
+        }
+        kani::cover!(na == 3);
+        std::mem::forget(server);
+    }
+
+    // ---- type-erased association-list model of std HashMap, keyed by the map's address
+    use std::collections::HashMap;
+    use std::hash::{Hash, BuildHasher};
+    use std::borrow::Borrow;
+    #[derive(Clone, Copy)]
+    struct Ent { used: bool, map: usize, key: *const (), val: *mut () }
+    const ME: usize = 8;
+    static mut TAB: [Ent; ME] = [Ent { used: false, map: 0, key: std::ptr::null(), val: std::ptr::null_mut() }; ME];
+
+    fn hm_find<K, V, S, A: std::alloc::Allocator, Q: ?Sized>(this: &HashMap<K, V, S, A>, k: &Q) -> usize where K: Borrow<Q>, Q: Eq {
+        let me = this as *const _ as usize;
+        let mut i = 0; let mut found = ME;
+        while i < ME {
+            let e = unsafe { TAB[i] };
+            if e.used && e.map == me && found == ME {
+                let kk: &K = unsafe { &*(e.key as *const K) };
+                if kk.borrow() == k { found = i; }
+            }
+            i += 1;
+        }
+        found
+    }
+    fn hm_get<'a, K, V, S, A: std::alloc::Allocator, Q: ?Sized>(this: &'a HashMap<K, V, S, A>, k: &Q) -> Option<&'a V> where K: Eq + Hash + Borrow<Q>, Q: Hash + Eq, S: BuildHasher {
+        let i = hm_find(this, k);
+        if i == ME { None } else { Some(unsafe { &*(TAB[i].val as *const V) }) }
+    }
+    fn hm_get_mut<'a, K, V, S, A: std::alloc::Allocator, Q: ?Sized>(this: &'a mut HashMap<K, V, S, A>, k: &Q) -> Option<&'a mut V> where K: Eq + Hash + Borrow<Q>, Q: Hash + Eq, S: BuildHasher {
+        let i = hm_find(this, k);
+        if i == ME { None } else { Some(unsafe { &mut *(TAB[i].val as *mut V) }) }
+    }
+    fn hm_contains_key<K, V, S, A: std::alloc::Allocator, Q: ?Sized>(this: &HashMap<K, V, S, A>, k: &Q) -> bool where K: Eq + Hash, S: BuildHasher, K: Borrow<Q>, Q: Hash + Eq {
+        hm_find(this, k) != ME
+    }
+    fn hm_insert<K, V, S, A: std::alloc::Allocator>(this: &mut HashMap<K, V, S, A>, k: K, v: V) -> Option<V> where K: Eq + Hash, S: BuildHasher {
+        let i = hm_find::<K, V, S, A, K>(this, &k);
+        if i != ME {
+            let old = unsafe { std::ptr::replace(TAB[i].val as *mut V, v) };
+            std::mem::forget(k);
+            return Some(old);
+        }
+        let me = this as *const _ as usize;
+        let mut j = 0; let mut free = ME;
+        while j < ME { if unsafe { !TAB[j].used } && free == ME { free = j; } j += 1; }
+        assert!(free < ME);
+        let kb = Box::into_raw(Box::new(k)) as *const ();
+        let vb = Box::into_raw(Box::new(v)) as *mut ();
+        unsafe { TAB[free] = Ent { used: true, map: me, key: kb, val: vb }; }
+        None
+    }
+
+    #[kani::proof]
+    #[kani::unwind(18)]
+    #[kani::stub(alloc::fmt::format, stub_format)]
+    #[kani::stub(<anyhow::Error as core::ops::Drop>::drop, stub_anyhow_drop)]
+    #[kani::stub(std::backtrace::Backtrace::capture, stub_bt)]
+    #[kani::stub(std::collections::hash_map::RandomState::new, stub_rs)]
+    #[kani::stub(std::collections::HashMap::get, hm_get)]
+    #[kani::stub(std::collections::HashMap::get_mut, hm_get_mut)]
+    #[kani::stub(std::collections::HashMap::contains_key, hm_contains_key)]
+    #[kani::stub(std::collections::HashMap::insert, hm_insert)]
+    fn inmem_stubbed() {
+        let s = InMemoryStorage::new();
+        let c = any_uuid();
+        let mut t = s.txn(c).unwrap();
+        t.new_client(Uuid::nil()).unwrap();
+        let v1 = any_uuid();
+        let p = any_uuid();
+        let b: u8 = kani::any();
+        t.add_version(v1, p, vec![b]).unwrap();
+        let got = t.get_version_by_parent(p).unwrap();
+        assert!(got.is_some());
+        let q = any_uuid();
+        let got2 = t.get_version_by_parent(q).unwrap();
+        assert!(got2.is_some() == (q == p));
+        let cl = t.get_client().unwrap().unwrap();
+        assert!(cl.latest_version_id == v1);
+        t.commit().unwrap();
+        std::mem::forget(got); std::mem::forget(got2); std::mem::forget(cl);
+        std::mem::forget(t);
+        std::mem::forget(s);
+    }
+
+    fn ck_v1<K, V, S, A: std::alloc::Allocator, Q>(this: &HashMap<K, V, S, A>, k: &Q) -> bool where K: Borrow<Q>, Q: Hash + Eq { hm_find(this, k) != ME }
+    fn ck_v2<Q: ?Sized, K, V, S, A: std::alloc::Allocator>(this: &HashMap<K, V, S, A>, k: &Q) -> bool where K: Borrow<Q>, Q: Hash + Eq { hm_find(this, k) != ME }
+    fn ck_v3<K, V, S, A, Q: ?Sized>(this: &HashMap<K, V, S, A>, k: &Q) -> bool where K: Borrow<Q>, Q: Hash + Eq, A: std::alloc::Allocator { hm_find(this, k) != ME }
+    #[kani::proof]
+    #[kani::stub(std::collections::HashMap::contains_key, ck_v1)]
+    fn t_v1() { let m: HashMap<u8, u8> = HashMap::new(); assert!(!m.contains_key(&1)); }
+    #[kani::proof]
+    #[kani::stub(std::collections::HashMap::contains_key, ck_v2)]
+    fn t_v2() { let m: HashMap<u8, u8> = HashMap::new(); assert!(!m.contains_key(&1)); }
+    #[kani::proof]
+    #[kani::stub(std::collections::HashMap::contains_key, ck_v3)]
+    fn t_v3() { let m: HashMap<u8, u8> = HashMap::new(); assert!(!m.contains_key(&1)); }
 }
